@@ -7,7 +7,7 @@ from .. import schemarun as R
 from .. import specrun as X
 
 LEVEL = "proof"
-N = {"quick": (15, 90), "thorough": (2000, 40000)}
+N = {"quick": (15, 90), "thorough": (150, 1000)}
 
 
 def regen_swagger20(binp):
@@ -98,7 +98,7 @@ def run(chk):
     from .. import specgen as G
     rng = random.Random(chk.seed + 202)
     sg = G.SpecGen(rng)
-    for i in range(60 if chk.tier == "quick" else 6000):
+    for i in range(60 if chk.tier == "quick" else 600):
         d, e = G.single_added_member(sg.spec(), rng)
         cases.append({"doc": d, "origin": "edited", "edits": [e]})
     extra = []
